@@ -214,6 +214,16 @@ def replay(iset, memarch, nregions, inputs, ob):
                 return real_(*a)
             return f
         setattr(cpu.registers, nm_, wrap())
+    gates = []
+    for nm_, pos_ in (('coproc_accepted', 0), ('coproc_get_word_to_store', 0), ('coproc_done_storing', 0), ('coproc_done_loading', 0),
+                      ('coproc_send_loaded_word', 1), ('coproc_send_two_words', 2), ('coproc_get_two_words', 0), ('coproc_internal_operation', 0),
+                      ('coproc_send_one_word', 1), ('coproc_get_one_word', 0)):
+        def wrapg(nm_=nm_, pos_=pos_, real_=getattr(cpu, nm_)):
+            def f(*a):
+                gates.append((nm_, a[pos_] if len(a) > pos_ else None))
+                return real_(*a)
+            return f
+        setattr(cpu, nm_, wrapg())
     try:
         try:
             cpu.emulate_cycle()
@@ -244,6 +254,13 @@ def replay(iset, memarch, nregions, inputs, ob):
         mrows = [r for r in ENC1.rows_for(type(eo).__name__) if r.iset == want1 and r.match(inputs['instr']) and getattr(r, 'mock', False)]
     if kind in ('safe.host', 'safe.escape'):
         bad = exc is not None and not isinstance(exc, NotImplementedError)
+    elif kind == 'post.gate':
+        hooks = [g for g in gates if g[0] != 'coproc_accepted']
+        lines.append('coprocessor calls in order: %s' % gates)
+        diff = {k: (_h(init[k]), _h(final[k])) for k in final if k not in STEP.SCRATCH and final[k] != init[k]}
+        if hooks:
+            lines.append('leaves changed before the hook: %s' % diff)
+        bad = bool(hooks) and (gates[0][0] != 'coproc_accepted' or gates[0][1] != hooks[0][1] or bool(diff))
     elif mrows:
         # a hint stopped at its mock hook: the condition passed and nothing has changed by then
         from spec.cpu import Cpu
